@@ -40,6 +40,8 @@ Definition dec_gop (e : sexp) : option gop :=
   | Sym "all" => Some GAll
   | Lst [Sym "orbit"; Num s] => Some (GOrbit (4 * s))
   | Lst (Sym "addset" :: ps) => match dec_perms ps with Some ps => Some (GAddSet ps) | None => None end
+  (* Group::add(p) is add_set({p}) (src/group/mod.rs) *)
+  | Lst (Sym "add" :: ps) => match dec_perms ps with Some ps => Some (GAddSet ps) | None => None end
   | Sym "gens" => Some GGens
   | Sym "trivial" => Some GTrivial
   | _ => None
